@@ -623,13 +623,7 @@ def analyse(mod, spec_types, timing, aliases=None, nba=False):
             else:
                 m["def"] = ("val", v)
         # facts read by the builder
-        anc = None
-        for a in cls.__mro__[-1:0:-1]:
-            if dataclasses.is_dataclass(a):
-                af = getattr(a, "__dataclass_fields__").get(name)
-                if af is not None:
-                    anc = bfield_of(af)
-        m["anc"] = anc
+        # (the ancestor Field of that name is chosen in Coq from the ancestors' field tables: BindCases.anc_of)
         m["own"] = name in own_ann
         if timing == "pre":
             s = pre.get(name)
@@ -688,6 +682,10 @@ def analyse(mod, spec_types, timing, aliases=None, nba=False):
             kind == "normal" and m["own"] and name not in pre and m["def"][0] == "val")
         m["from_plain_base"] = kind == "normal" and not is_field
         members.append(m)
+    anc_tables = [[(n, bfield_of(af)) for n, af in getattr(a, "__dataclass_fields__").items() if n in hints]
+                  for a in cls.__mro__[-1:0:-1] if dataclasses.is_dataclass(a)]
+    for m in members:
+        m["anc_tables"] = anc_tables
     sigpos = [n for n, p in sig.parameters.items()
               if n != "self" and p.kind is inspect.Parameter.POSITIONAL_OR_KEYWORD]
     sigkw = [n for n, p in sig.parameters.items() if p.kind is inspect.Parameter.KEYWORD_ONLY]
@@ -875,10 +873,9 @@ KIND = {"normal": "KNormal", "initvar": "KInitVar", "classvar": "KClassVar", "se
 
 
 def coq_member(m):
-    return "mkm %s %s %s %s %s %s %s %s %s %s %s %s %s" % (
+    return "mkm %s %s %s %s %s %s %s %s %s %s %s %s" % (
         coq_str(m["name"]), KIND[m["kind"]], coq_bool(m["field"]), coq_bool(m["param"]), coq_bool(m["kw"]),
-        coq_dflt(m["def"]), "None" if m["anc"] is None else "(Some %s)" % coq_bfield(m["anc"]),
-        coq_bool(m["own"]), coq_ns(m["ns"]), "None" if m["df"] is None else "(Some %s)" % coq_bfield(m["df"]),
+        coq_dflt(m["def"]), coq_bool(m["own"]), coq_ns(m["ns"]), "None" if m["df"] is None else "(Some %s)" % coq_bfield(m["df"]),
         coq_bool(m["nullty"]), coq_bool(m["ident"]), coq_bool(m.get("unull", False)))
 
 
@@ -891,8 +888,10 @@ def coq_lay(members, sigpos, sigkw):
                                                   osrc(m["asrc"][3]))
                      for m in members if m.get("asrc") and (m["asrc"][0] is not None or m["asrc"][1] or m["asrc"][3] is not None
                                                             or m["asrc"][2]))
-    return ("{| ly_L := [%s];\n     ly_asrc := [%s];\n     ly_kinds := [%s]; ly_nba := %s; ly_sigpos := [%s]; ly_sigkw := [%s] |}" % (
-        ";\n       ".join(coq_member(m) for m in members), asrc,
+    tables = members[0]["anc_tables"] if members else []
+    anc = "; ".join("[%s]" % "; ".join("(%s, %s)" % (coq_str(n), coq_bfield(b)) for n, b in t) for t in tables)
+    return ("{| ly_L := [%s];\n     ly_asrc := [%s];\n     ly_anc := [%s];\n     ly_kinds := [%s]; ly_nba := %s; ly_sigpos := [%s]; ly_sigkw := [%s] |}" % (
+        ";\n       ".join(coq_member(m) for m in members), asrc, anc,
         "; ".join("(%s, %s)" % (coq_str(m["name"]), m["conv"]) for m in members if m["kind"] == "normal"),
         coq_bool(nba), "; ".join(coq_str(n) for n in sigpos), "; ".join(coq_str(n) for n in sigkw)))
 
@@ -1105,9 +1104,13 @@ def run(ctx: vlib.Ctx):
     ctx.trusted += [
         "Bind.bind/step/walk: model of CPython dataclass __init__ binding, default materialisation and factory call "
         "order (compared with the real classes on every run, incl. inspect.signature)",
-        "harness/props/c07.py analyse(): extraction of the class facts the builder reads (cls.__dict__, "
-        "__dataclass_fields__ of the MRO, namespace snapshot before @dataclass) and of the truth (signature, fields)",
-        "conversions int()/float()/str()/list comprehension on the generated value domain (BindCases.conv_k)",
+        "harness/props/c07.py analyse(): extraction of the class facts the builder reads (cls.__dict__, the "
+        "__dataclass_fields__ tables of the dataclass ancestors in cls.__mro__[-1:0:-1] order, namespace snapshot "
+        "before @dataclass, Field.metadata alias / Annotated Alias annotations / Config.aliases entry) and of the "
+        "truth (signature, fields); which ancestor Field counts and which alias source wins is computed in Coq "
+        "(BindCases.anc_of, K4.get_field_alias translated from /repo)",
+        "conversions int()/float()/str()/bool()/list and tuple comprehension/Decimal()/timedelta(seconds=)/IntEnum() "
+        "incl. the inputs they reject, on the generated value domain (BindCases.conv_k; text never parses as a number)",
     ]
     ctx.assumptions += [
         "layout_ok: member names unique, Python accepts the parameter order, InitVar members have a plain default "
@@ -1141,7 +1144,15 @@ def run(ctx: vlib.Ctx):
         spec = {"types": st, "aliases": prog.get("aliases", {}), "nba": bool(prog.get("nba"))}
         info = {"prog": prog, "src": src, "mod": mod, "fails": 0, "spec": spec}
         progs.append(info)
-        for entry, fn, timing in entries_of(prog, mod):
+        try:
+            entries = entries_of(prog, mod)
+        except Exception as e:  # noqa: BLE001 - the codec could not be compiled for classes Python accepts
+            ctx.fail("compiling the decoder fails: %s: %s" % (type(e).__name__, e),
+                     {"source": src, "spec": spec, "entry": "compile", "input": None,
+                      "observed": "%s: %s" % (type(e).__name__, e), "expected": "a decoder"},
+                     {"kind": "decoder-compilation", "exc": type(e).__name__})
+            continue
+        for entry, fn, timing in entries:
             members, sigpos, sigkw = analyse(mod, st, timing, prog.get("aliases"), prog.get("nba"))
             li = len(lays)
             lays.append(coq_lay(members, sigpos, sigkw))
@@ -1330,7 +1341,15 @@ def replay(rep: dict) -> int:
         return 0
     from mashumaro.codecs.basic import BasicDecoder
     cls = mod.TARGET
-    fn = cls.from_dict if rep["entry"] == "from_dict" else BasicDecoder(cls).decode
+    try:
+        fn = cls.from_dict if rep["entry"] == "from_dict" else BasicDecoder(cls).decode
+    except Exception as e:  # noqa: BLE001
+        print("compiling the decoder:", type(e).__name__, e)
+        print("REPRODUCED" if rep.get("entry") == "compile" else "decoder does not compile")
+        return 1 if rep.get("entry") == "compile" else 2
+    if rep.get("entry") == "compile":
+        print("not reproduced")
+        return 0
     # truth from introspection; declared types / aliases come with the replay file, else from the annotations
     spec = rep.get("spec")
     aliases, nba = {}, False
